@@ -192,6 +192,8 @@ def run(ctx):
     cov["witness_runs"] = sw.get("runs", 0)
     cov["findings_reproduced"] = reproduced
     cov["children_crashed"] = s1.get("crashes", 0) + s2.get("crashes", 0)
+    # a child that ran out of time gives no verdict: its unfinished run is dropped by the harness, never judged
+    cov["children_timed_out"] = s1.get("children_timed_out", 0) + s2.get("children_timed_out", 0)
     cov["subjects"] = {}
     vacuous, refusals, b2_exec = [], 0, 0
     for name, d in sorted(s1.get("subjects", {}).items()):
